@@ -484,7 +484,9 @@ def check_spy(run, res):
       ln = sm.lines([m] + recs)
       if len(ln) + 1 > RTC:
         return
-      last = ln + ['<- Queued:(%d) Deferred:(%d)' % (p['q_after'], p['d_after'])]
+      # a handler that called stop() has put the stop marker into the object's queue: it is counted by the reflection
+      stopped = 1 if (host in ('ao', 'factory') and any(r[0] == 'fx' and r[1] == 'stop' for r in recs)) else 0
+      last = ln + ['<- Queued:(%d) Deferred:(%d)' % (p['q_after'] + stopped, p['d_after'])]
       added.extend(last)
     if k == 'rtc' and not segs:
       last = ['<- Queued:(%d) Deferred:(%d)' % (len(ob.model_q or []), len(ob.model_d or []))]
